@@ -28,11 +28,12 @@ import (
 )
 
 type spec struct {
-	From   int   `json:"from"`
-	To     int   `json:"to"`
-	Fixed  bool  `json:"fixed,omitempty"`
-	Replay *hist `json:"replay,omitempty"`
-	Rep    int   `json:"rep,omitempty"`
+	From   int     `json:"from"`
+	To     int     `json:"to"`
+	Fixed  bool    `json:"fixed,omitempty"`
+	Replay *hist   `json:"replay,omitempty"`
+	Rep    int     `json:"rep,omitempty"`
+	HO     *hoSpec `json:"ho,omitempty"`
 }
 
 func newRunner(c *rig.Check, h *hist, r *rig.Rig, bubble bool) *runner {
@@ -146,6 +147,10 @@ func child(t *testing.T, c *rig.Check) {
 	var sp spec
 	c.ChildSpec(&sp)
 	sen := rig.InstallSentinel()
+	if sp.HO != nil {
+		runHandover(t, c, sp.HO, sen)
+		return
+	}
 	var hists []*hist
 	switch {
 	case sp.Replay != nil:
@@ -233,25 +238,53 @@ func TestCheck(t *testing.T) {
 	if p := c.ReplayPath(); p != "" {
 		var w struct {
 			Witness struct {
-				Hist *hist `json:"hist"`
+				Hist     *hist   `json:"hist"`
+				Handover *hoSpec `json:"handover"`
 			} `json:"witness"`
 		}
 		rig.ReadJSON(p, &w)
-		if w.Witness.Hist == nil {
+		switch {
+		case w.Witness.Handover != nil:
+			for i := 0; i < 4; i++ {
+				specs = append(specs, spec{HO: w.Witness.Handover, Rep: i})
+			}
+		case w.Witness.Hist == nil:
 			t.Fatalf("replay file has no history")
-		}
-		n := 1
-		if w.Witness.Hist.Conc {
-			n = 8
-		}
-		for i := 0; i < n; i++ {
-			specs = append(specs, spec{Replay: w.Witness.Hist, Rep: i})
+		default:
+			n := 1
+			if w.Witness.Hist.Conc {
+				n = 8
+			}
+			for i := 0; i < n; i++ {
+				specs = append(specs, spec{Replay: w.Witness.Hist, Rep: i})
+			}
 		}
 	} else {
 		n := c.N(200, 4000)
 		chunks := c.N(16, 64)
 		for i := 0; i < chunks; i++ {
 			specs = append(specs, spec{From: i * n / chunks, To: (i + 1) * n / chunks, Fixed: i == 0})
+		}
+		// hand-over scenarios (handover_test.go)
+		idx := 0
+		ho := func(kind, variant string, n, spread int) {
+			store := []string{"mem", "disk", "disk0"}[idx%3]
+			specs = append(specs, spec{HO: &hoSpec{Kind: kind, Variant: variant, N: n, Store: store, Idx: idx, Spread: spread}})
+			idx++
+		}
+		racy, per := c.N(2, 8), c.N(250, 1000)
+		for _, kind := range []string{"events", "info"} {
+			for i := 0; i < racy; i++ {
+				if kind == "info" && i%2 == 1 {
+					continue
+				}
+				ho(kind, "aligned", per, []int{0, 300, 100, 1000}[i%4])
+				ho(kind, "free", per, []int{300, 0, 1000, 100}[i%4])
+			}
+			ho(kind, "hold-until-subscribed", c.N(100, 400), 0)
+			ho(kind, "subscribe-after-unsubscribed", c.N(100, 400), 0)
+			ho(kind, "sequential", c.N(30, 120), 0)
+			ho(kind, "two-swamps", c.N(30, 120), 0)
 		}
 	}
 	res := c.Fanout(specs, rig.FanoutOpts{Par: 16, Timeout: 4 * time.Minute})
@@ -289,5 +322,6 @@ func TestCheck(t *testing.T) {
 		}
 	}
 	c.Extra("races_outside_event_path", other)
+	c.Extra("hooks", []string{hookUnsubEvents, hookUnsubInfo})
 	c.MinNontrivial = c.N(60, 1200)
 }
